@@ -21,14 +21,45 @@ ASSUMPTIONS = [
 
 
 def multi_term_with_take(case):
-    """known finding F-C01-1: a take() term inside a sum of several terms"""
+    """
+    known finding F-C01-1: a take() term inside a sum of several terms whose SELECTED operand is not a tensor carrying
+    every rank of the term (a scalar, a rank-0 tensor or a tensor over fewer ranks).  Such an operand is not zeroed by the
+    union when another operand of its term is absent, so it is added although the term is absent.
+    (take terms whose selected operand carries all ranks are computed correctly and stay in the search.)
+    """
     for e in case["spec"]["exprs"]:
-        if len(e["terms"]) >= 2 and any(t.get("take") is not None for t in e["terms"]):
-            return True
+        if len(e["terms"]) < 2:
+            continue
+        for t in e["terms"]:
+            if t.get("take") is None:
+                continue
+            ranks = set(v for f in t["factors"] if "t" in f for ie in f["idx"] for v in S.iexpr_vars(ie))
+            sel = t["factors"][t["take"]]
+            if "v" in sel:
+                return True
+            if set(v for ie in sel["idx"] for v in S.iexpr_vars(ie)) != ranks:
+                return True
     return False
 
 
-EXCLUDED = {"multi_term_with_take": multi_term_with_take}
+def scalar_shared_with_take_term(case):
+    """
+    known finding F-C01-2: the same scalar variable occurs in a take() term and in another term: the compiler keys its
+    factor bookkeeping by name, so the take term's 'not selected' flag drops the scalar from the other term's product
+    (Z[] = take(alpha, A[i], 1) + alpha * B[i] * C[i] emits b_val * c_val) or an IndexError is raised.
+    """
+    for e in case["spec"]["exprs"]:
+        seen = {}
+        for k, t in enumerate(e["terms"]):
+            for v in set(S.term_scalars(t)):
+                seen.setdefault(v, []).append(t.get("take") is not None)
+        for v, flags in seen.items():
+            if len(flags) >= 2 and any(flags):
+                return True
+    return False
+
+
+EXCLUDED = {"multi_term_with_take": multi_term_with_take, "scalar_shared_with_take_term": scalar_shared_with_take_term}
 
 
 def classes_of(spec):
